@@ -19,15 +19,18 @@ import (
 )
 
 type c07Op struct {
-	Op    string `json:"op"`              // sendiq arrive burst recv cancel reenter
-	ID    int    `json:"id,omitempty"`    // iq id (sendiq, arrive, burst)
-	Req   int    `json:"req,omitempty"`   // request index (recv, cancel)
-	N     int    `json:"n,omitempty"`     // burst: number of concurrent copies
-	Fail  bool   `json:"fail,omitempty"`  // sendiq: the transport write fails
-	Early bool   `json:"early,omitempty"` // sendiq: the response is routed from inside the transport Write (before SendIQ returns)
-	XID   int    `json:"xid,omitempty"`   // arrive: the response comes off the wire (decoded by stanza.NextPacket) carrying, besides its id, a look-alike attribute xml:id='XID'
-	Get   bool   `json:"get,omitempty"`   // arrive: the IQ is a REQUEST (type get) that happens to carry this id, not a response
-	Late  bool   `json:"late,omitempty"`  // sendiq: context whose Err() turns non-nil on cancel but whose Done() never fires: the canceller goroutine never removes the entry (the window between cancellation and clean-up, held open)
+	Op    string `json:"op"`               // sendiq arrive burst recv cancel reenter csend
+	ID    int    `json:"id,omitempty"`     // iq id (sendiq, arrive, burst)
+	Req   int    `json:"req,omitempty"`    // request index (recv, cancel)
+	N     int    `json:"n,omitempty"`      // burst: number of concurrent copies
+	Fail  bool   `json:"fail,omitempty"`   // sendiq: the transport write fails
+	Early bool   `json:"early,omitempty"`  // sendiq: the response is routed from inside the transport Write (before SendIQ returns)
+	XID   int    `json:"xid,omitempty"`    // arrive: the response comes off the wire (decoded by stanza.NextPacket) carrying, besides its id, a look-alike attribute xml:id='XID'
+	Get   bool   `json:"get,omitempty"`    // arrive: the IQ is a REQUEST (type get) that happens to carry this id, not a response
+	Typ   string `json:"typ,omitempty"`    // arrive: the type attribute as it comes off the wire: result error get set, "none" (attribute missing), or anything else ("Result", "ERROR", "foo"); only result and error are responses
+	Steer bool   `json:"steer,omitempty"`  // csend: request Req (a late, cancelled one holding the id's stale entry) has a context whose Err() parks the first caller inside SendIQ's "is the id pending?" check until the other callers had their chance
+	Round int    `json:"rounds,omitempty"` // csend: unsteered rounds of N concurrent SendIQ calls under one scratch id run first
+	Late  bool   `json:"late,omitempty"`   // sendiq: context whose Err() turns non-nil on cancel but whose Done() never fires: the canceller goroutine never removes the entry (the window between cancellation and clean-up, held open)
 }
 type c07In struct {
 	Component bool    `json:"component,omitempty"`
@@ -43,7 +46,7 @@ func (c07) RunFn() string { return "run_C07" }
 func (c07) Workers() int  { return 8 }
 func (c07) Journal() bool { return true }
 func (c07) Rule() string {
-	return "forced schedules on the real Router/Client/Component: SendIQ (ids distinct or clashing - a clashing id must be refused with an error and nothing written while the earlier request is awaiting its response -, write ok or failing, response routed from inside the transport write i.e. before SendIQ returns), matching / duplicate / foreign responses routed synchronously, one in four arrivals being a get REQUEST carrying such an id (it must reach the ordinary routes and leave the pending request alone) (one in four decoded from the wire by stanza.NextPacket with an xml:id look-alike naming another request), bursts of 2-6 concurrent copies of one response released together through the exported IQResultRouteLock, receiver reading or abandoning its channel, an ordinary route handler that itself calls SendIQ (re-entrancy into the pending table while a response is being routed), context cancellation before the response, with the clean-up goroutine run or held back (context whose Done() never fires); every routing call runs under a watchdog (a call that does not return is a blocked router); distinct = op sequence shape; non-trivial = at least one request and one response"
+	return "forced schedules on the real Router/Client/Component: SendIQ (ids distinct or clashing - a clashing id must be refused with an error and nothing written while the earlier request is awaiting its response -, write ok or failing, response routed from inside the transport write i.e. before SendIQ returns), matching / duplicate / foreign responses routed synchronously, one in four arrivals being a get REQUEST carrying such an id and one in five carrying a type drawn from {error, set, get, missing, Result, ERROR, foo} as decoded from the wire (only result and error are responses; everything else must reach the ordinary routes and leave the pending request alone), N concurrent SendIQ calls under one id released together (40 unsteered rounds on scratch ids, then the observed round; steered variant: the stale entry's context parks the first caller inside the pending-check while the others run) - at most one may be accepted while the id is pending, (one in four decoded from the wire by stanza.NextPacket with an xml:id look-alike naming another request), bursts of 2-6 concurrent copies of one response released together through the exported IQResultRouteLock, receiver reading or abandoning its channel, an ordinary route handler that itself calls SendIQ (re-entrancy into the pending table while a response is being routed), context cancellation before the response, with the clean-up goroutine run or held back (context whose Done() never fires); every routing call runs under a watchdog (a call that does not return is a blocked router); distinct = op sequence shape; non-trivial = at least one request and one response"
 }
 func (c07) Decode(raw json.RawMessage) (interface{}, error) {
 	var in c07In
@@ -74,6 +77,13 @@ func (c07) Gen(r *rand.Rand, tier string) []interface{} {
 		// a get carrying the id of a pending request is a request, not its response (hunt-C07/f1)
 		c07In{Ops: []c07Op{{Op: "sendiq", ID: 1}, {Op: "arrive", ID: 1, Get: true}, {Op: "arrive", ID: 1}, {Op: "recv", Req: 0}}},
 		c07In{Component: true, Ops: []c07Op{{Op: "sendiq", ID: 2}, {Op: "arrive", ID: 2, Get: true, XID: 2}, {Op: "recv", Req: 0}, {Op: "arrive", ID: 2}}},
+		// an IQ of missing / non-standard type carrying a pending id is not the response either (seeded C07-mut5)
+		c07In{Ops: []c07Op{{Op: "sendiq", ID: 1}, {Op: "arrive", ID: 1, Typ: "none"}, {Op: "arrive", ID: 1, Typ: "Result"}, {Op: "arrive", ID: 1, Typ: "error"}, {Op: "recv", Req: 0}}},
+		c07In{Component: true, Ops: []c07Op{{Op: "sendiq", ID: 2}, {Op: "arrive", ID: 2, Typ: "ERROR"}, {Op: "arrive", ID: 2, Typ: "foo", XID: 2}, {Op: "arrive", ID: 2, Typ: "set"}, {Op: "arrive", ID: 2}, {Op: "recv", Req: 0}}},
+		// concurrent SendIQ calls under one id: one accepted, the others refused (seeded C07-mut6)
+		c07In{Ops: []c07Op{{Op: "csend", ID: 1, N: 4, Round: 40}, {Op: "arrive", ID: 1}, {Op: "arrive", ID: 1}, {Op: "recv", Req: 0}}},
+		c07In{Ops: []c07Op{{Op: "sendiq", ID: 2, Late: true}, {Op: "cancel", Req: 0}, {Op: "csend", ID: 2, N: 2, Steer: true, Req: 0}, {Op: "arrive", ID: 2}, {Op: "arrive", ID: 2}, {Op: "recv", Req: 1}, {Op: "recv", Req: 2}}},
+		c07In{Component: true, Ops: []c07Op{{Op: "sendiq", ID: 3, Late: true}, {Op: "csend", ID: 3, N: 3, Steer: true, Req: 0}, {Op: "arrive", ID: 3}, {Op: "recv", Req: 0}}},
 		// clashing ids: the second request is refused, the first keeps its entry (hunt-C07/f3)
 		c07In{Ops: []c07Op{{Op: "sendiq", ID: 1}, {Op: "sendiq", ID: 1}, {Op: "arrive", ID: 1}, {Op: "recv", Req: 0}, {Op: "sendiq", ID: 1}, {Op: "arrive", ID: 1}}},
 		c07In{Ops: []c07Op{{Op: "sendiq", ID: 1}, {Op: "sendiq", ID: 1}, {Op: "arrive", ID: 1}, {Op: "arrive", ID: 1}, {Op: "recv", Req: 0}, {Op: "recv", Req: 1}}},
@@ -86,7 +96,7 @@ func (c07) Gen(r *rand.Rand, tier string) []interface{} {
 		l := 1 + r.Intn(14)
 		nreq := 0
 		for j := 0; j < l; j++ {
-			switch c := r.Intn(20); {
+			switch c := r.Intn(22); {
 			case c < 6 || nreq == 0:
 				in.Ops = append(in.Ops, c07Op{Op: "sendiq", ID: 1 + r.Intn(3), Fail: r.Intn(8) == 0, Early: r.Intn(6) == 0, Late: r.Intn(4) == 0})
 				nreq++
@@ -96,6 +106,9 @@ func (c07) Gen(r *rand.Rand, tier string) []interface{} {
 					id = 20 + r.Intn(nreq) // the answer to a request sent by a re-entrant handler (if that slot is one)
 				}
 				op := c07Op{Op: "arrive", ID: id, Get: r.Intn(4) == 0}
+				if !op.Get && r.Intn(5) == 0 {
+					op.Typ = []string{"error", "set", "get", "none", "Result", "ERROR", "foo", "result"}[r.Intn(8)]
+				}
 				if r.Intn(4) == 0 {
 					op.XID = 1 + r.Intn(4) // decoded from the wire, with an xml:id look-alike naming another (maybe pending) request
 				}
@@ -108,6 +121,19 @@ func (c07) Gen(r *rand.Rand, tier string) []interface{} {
 				nreq++
 			case c < 17:
 				in.Ops = append(in.Ops, c07Op{Op: "recv", Req: r.Intn(nreq)})
+			case c == 20:
+				k := 2 + r.Intn(3)
+				in.Ops = append(in.Ops, c07Op{Op: "csend", ID: 1 + r.Intn(3), N: k, Round: 40})
+				nreq += k
+			case c == 21:
+				// a request whose context has ended keeps its stale entry (clean-up held back); concurrent callers reuse the id
+				id, k := 1+r.Intn(3), 2+r.Intn(2)
+				in.Ops = append(in.Ops, c07Op{Op: "sendiq", ID: id, Late: true})
+				if r.Intn(4) != 0 {
+					in.Ops = append(in.Ops, c07Op{Op: "cancel", Req: nreq})
+				}
+				in.Ops = append(in.Ops, c07Op{Op: "csend", ID: id, N: k, Steer: true, Req: nreq})
+				nreq += 1 + k
 			default:
 				in.Ops = append(in.Ops, c07Op{Op: "cancel", Req: r.Intn(nreq)})
 			}
@@ -124,9 +150,9 @@ func (c07) Input(inp interface{}) Sx {
 	nch, nrt := 0, 0
 	var failed []bool
 	var late []bool
-	arrive := func(id int, get ...bool) {
-		if len(get) > 0 && get[0] {
-			acts = append(acts, L(Z(2), Zi(id), Zi(nrt), Z(1)))
+	arrive := func(id int, kind ...int) {
+		if len(kind) > 0 && kind[0] != 0 {
+			acts = append(acts, L(Z(2), Zi(id), Zi(nrt), Zi(kind[0])))
 		} else {
 			acts = append(acts, L(Z(2), Zi(id), Zi(nrt)))
 		}
@@ -150,7 +176,15 @@ func (c07) Input(inp interface{}) Sx {
 				acts = append(acts, L(Z(1), Zi(c)))
 			}
 		case "arrive":
-			arrive(o.ID, o.Get)
+			arrive(o.ID, c07Kind(o))
+		case "csend":
+			// the calls are atomic one after the other in some order; the slots are numbered in that order
+			for k := 0; k < o.N; k++ {
+				acts = append(acts, L(Z(0), Zi(o.ID)))
+				nch++
+				failed = append(failed, false)
+				late = append(late, false)
+			}
 		case "reenter":
 			// the response is routed; its ordinary handler (if it runs) registers request 20+chan index
 			arrive(o.ID)
@@ -193,11 +227,50 @@ func (c07) Input(inp interface{}) Sx {
 // c07LateCtx: cancellation is visible through Err() but Done() never signals.
 type c07LateCtx struct {
 	context.Context
-	mu  sync.Mutex
-	err error
+	mu      sync.Mutex
+	err     error
+	armed   bool // the next Err() call parks until release is closed
+	parked  chan struct{}
+	release chan struct{}
 }
 
-func (c *c07LateCtx) Err() error            { c.mu.Lock(); defer c.mu.Unlock(); return c.err }
+func (c *c07LateCtx) Err() error {
+	c.mu.Lock()
+	if c.armed {
+		c.armed = false
+		p, rl := c.parked, c.release
+		c.mu.Unlock()
+		close(p)
+		<-rl
+		c.mu.Lock()
+	}
+	defer c.mu.Unlock()
+	return c.err
+}
+func (c *c07LateCtx) arm() {
+	c.mu.Lock()
+	c.armed, c.parked, c.release = true, make(chan struct{}), make(chan struct{})
+	c.mu.Unlock()
+}
+func (c *c07LateCtx) disarm() {
+	c.mu.Lock()
+	c.armed = false
+	c.mu.Unlock()
+}
+
+// c07Kind: 0 a response (result/error), 1 a request (get/set), 2 anything else.
+func c07Kind(o c07Op) int {
+	if o.Get {
+		return 1
+	}
+	switch o.Typ {
+	case "", "result", "error":
+		return 0
+	case "get", "set":
+		return 1
+	}
+	return 2
+}
 func (c *c07LateCtx) Done() <-chan struct{} { return nil }
 func (c *c07LateCtx) cancel()               { c.mu.Lock(); c.err = context.Canceled; c.mu.Unlock() }
 
@@ -246,6 +319,7 @@ func (c07) Run(inp interface{}) Sx {
 	blocked := 0
 	xid := 0
 	get := false
+	atyp := ""
 	routeSync := func(id int) {
 		done := make(chan struct{})
 		x := xid
@@ -254,13 +328,30 @@ func (c07) Run(inp interface{}) Sx {
 		if get {
 			typ, from = stanza.IQTypeGet, "juliet@localhost/balcony" // somebody's request, same id
 		}
-		get = false
+		wire := x != 0
+		tattr := ""
+		if atyp != "" {
+			wire = true
+			if atyp != "result" && atyp != "error" {
+				from = "juliet@localhost/balcony"
+			}
+			if atyp != "none" {
+				tattr = fmt.Sprintf(" type='%s'", atyp)
+			}
+		} else {
+			tattr = fmt.Sprintf(" type='%s'", typ)
+		}
+		xattr := ""
+		if x != 0 {
+			xattr = fmt.Sprintf(" xml:id='%d'", x)
+		}
+		get, atyp = false, ""
 		go func() {
 			defer close(done)
 			var pkt stanza.Packet
-			if x != 0 {
+			if wire {
 				// as it would arrive: decoded from the stream
-				doc := fmt.Sprintf("<stream:stream xmlns='jabber:client' xmlns:stream='http://etherx.jabber.org/streams'><iq type='%s' id='%d' xml:id='%d' from='%s'/>", typ, id, x, from)
+				doc := fmt.Sprintf("<stream:stream xmlns='jabber:client' xmlns:stream='http://etherx.jabber.org/streams'><iq%s id='%d'%s from='%s'/>", tattr, id, xattr, from)
 				d := xml.NewDecoder(strings.NewReader(doc))
 				if _, err := stanza.InitStream(d); err != nil {
 					return
@@ -291,9 +382,11 @@ func (c07) Run(inp interface{}) Sx {
 		closed bool
 		failed bool
 		late   bool
+		lctx   *c07LateCtx
 	}
 	var reqs []*req
 	var refused []Sx
+	scratch := 0
 	read := func(rq *req) {
 		if rq.ch == nil {
 			return
@@ -318,9 +411,10 @@ func (c07) Run(inp interface{}) Sx {
 		switch o.Op {
 		case "sendiq":
 			ctx, cancel := context.WithCancel(context.Background())
+			var lctx *c07LateCtx
 			if o.Late {
-				lc := &c07LateCtx{Context: context.Background()}
-				ctx, cancel = lc, lc.cancel
+				lctx = &c07LateCtx{Context: context.Background()}
+				ctx, cancel = lctx, lctx.cancel
 			}
 			iq, _ := stanza.NewIQ(stanza.Attrs{Type: stanza.IQTypeGet, Id: fmt.Sprint(o.ID), To: "srv"})
 			hook.mu2.Lock()
@@ -342,7 +436,7 @@ func (c07) Run(inp interface{}) Sx {
 			hook.mu2.Unlock()
 			// refused: an error although nothing was handed to the transport (the id is awaiting its response)
 			isRefused := err != nil && !wrote
-			rq := &req{ch: ch, cancel: cancel, failed: err != nil, late: o.Late}
+			rq := &req{ch: ch, cancel: cancel, failed: err != nil, late: o.Late, lctx: lctx}
 			if (err == nil && o.Fail) || (err != nil && !o.Fail && !isRefused) {
 				rq.got = append(rq.got, -7) // unexpected SendIQ result
 			}
@@ -355,8 +449,124 @@ func (c07) Run(inp interface{}) Sx {
 			}
 		case "arrive":
 			xid = o.XID
-			get = o.Get
+			get, atyp = o.Get, o.Typ
 			routeSync(o.ID)
+		case "csend":
+			type cres struct {
+				ch     chan stanza.IQ
+				err    error
+				cancel context.CancelFunc
+			}
+			hook.mu2.Lock()
+			hook.failNext, hook.onWrite = false, nil
+			hook.mu2.Unlock()
+			call := func(id string) cres {
+				ctx, cancel := context.WithCancel(context.Background())
+				iq, _ := stanza.NewIQ(stanza.Attrs{Type: stanza.IQTypeGet, Id: id, To: "srv"})
+				ch, err := sendIQ(ctx, iq)
+				return cres{ch, err, cancel}
+			}
+			// unsteered rounds under scratch ids (not part of the schedule): the callers are released together
+			racy := 0
+			for rd := 0; rd < o.Round; rd++ {
+				scratch++
+				sid := fmt.Sprint(1000 + scratch)
+				out := make([]cres, o.N)
+				start := make(chan struct{})
+				var wg sync.WaitGroup
+				for k := 0; k < o.N; k++ {
+					wg.Add(1)
+					go func(k int) { defer wg.Done(); <-start; out[k] = call(sid) }(k)
+				}
+				close(start)
+				wg.Wait()
+				acc := 0
+				for _, c := range out {
+					if c.err == nil {
+						acc++
+					}
+				}
+				if acc != 1 {
+					racy++
+				}
+				for _, c := range out {
+					c.cancel()
+				}
+			}
+			// the observed round
+			hook.mu2.Lock()
+			before := hook.attempts
+			hook.mu2.Unlock()
+			out := make([]cres, o.N)
+			var wg sync.WaitGroup
+			fin := make(chan struct{})
+			var armed *c07LateCtx
+			if o.Steer && o.Req < len(reqs) && reqs[o.Req].lctx != nil {
+				armed = reqs[o.Req].lctx
+				armed.arm()
+			}
+			id := fmt.Sprint(o.ID)
+			start := make(chan struct{})
+			for k := 0; k < o.N; k++ {
+				wg.Add(1)
+				go func(k int) {
+					defer wg.Done()
+					if k > 0 || armed == nil {
+						<-start
+					}
+					out[k] = call(id)
+				}(k)
+			}
+			go func() { wg.Wait(); close(fin) }()
+			if armed != nil {
+				// caller 0 goes first and parks in the stale entry's Err(), i.e. inside the pending-check
+				select {
+				case <-armed.parked:
+				case <-fin:
+				case <-time.After(20 * time.Millisecond):
+				}
+			}
+			close(start)
+			if armed != nil {
+				// the other callers get their chance while caller 0 is parked (they wait for it if the check holds the table lock)
+				select {
+				case <-fin:
+				case <-time.After(4 * time.Millisecond):
+				}
+				armed.disarm()
+				close(armed.release)
+			}
+			select {
+			case <-fin:
+			case <-time.After(2 * time.Second):
+				mu.Lock()
+				blocked++
+				mu.Unlock()
+			}
+			hook.mu2.Lock()
+			wrote := hook.attempts - before
+			hook.mu2.Unlock()
+			sort.SliceStable(out, func(a, b int) bool { return out[a].err == nil && out[b].err != nil }) // accepted first
+			acc := 0
+			for k, c := range out {
+				cancel := c.cancel
+				if cancel == nil {
+					cancel = func() {}
+				}
+				rq := &req{ch: c.ch, cancel: cancel, failed: c.err != nil}
+				if c.err == nil {
+					acc++
+				} else {
+					refused = append(refused, Zi(len(reqs)))
+				}
+				if k == 0 && racy > 0 {
+					rq.got = append(rq.got, -8) // an unsteered round accepted none or several of the concurrent callers
+				}
+				reqs = append(reqs, rq)
+			}
+			if wrote != acc {
+				reqs[len(reqs)-o.N].got = append(reqs[len(reqs)-o.N].got, -7) // refused but written, or accepted and not written
+			}
 		case "reenter":
 			rq := &req{}
 			newID := 20 + len(reqs)
@@ -433,8 +643,12 @@ func (c07) Run(inp interface{}) Sx {
 func c07IQ(iq *stanza.IQ) int64 {
 	var id int64
 	fmt.Sscan(iq.Id, &id)
-	if iq.Type == stanza.IQTypeGet || iq.Type == stanza.IQTypeSet {
+	switch iq.Type {
+	case stanza.IQTypeResult, stanza.IQTypeError:
+	case stanza.IQTypeGet, stanza.IQTypeSet:
 		id += 100
+	default:
+		id += 200 // type missing or non-standard
 	}
 	return id
 }
@@ -522,10 +736,27 @@ func (c07) Oracle(inp interface{}, obs Sx) (string, string) {
 				delete(pending, o.ID)
 			}
 		case "arrive":
-			if o.Get {
+			switch c07Kind(o) {
+			case 1:
 				wantOrd[100+o.ID]++ // a request: ordinary routes, the pending request (if any) keeps waiting
-			} else {
+			case 2:
+				wantOrd[200+o.ID]++ // neither a request nor a response: ordinary routes as well
+			default:
 				deliver(o.ID)
+			}
+		case "csend":
+			// concurrent callers under one id: whatever their order, only the first can be accepted, and none
+			// while an earlier request with that id is awaiting its response
+			for k := 0; k < o.N; k++ {
+				rq := len(reqID)
+				reqID = append(reqID, o.ID)
+				failed = append(failed, false)
+				isLate = append(isLate, false)
+				if cur, ok := pending[o.ID]; ok && !lateCancelled[cur] {
+					wantRefused[rq] = true
+				} else {
+					pending[o.ID] = rq
+				}
 			}
 		case "reenter":
 			// generated with ids nobody is waiting for: ordinary routing, whose handler sends request 20+index
@@ -568,6 +799,12 @@ func (c07) Oracle(inp interface{}, obs Sx) (string, string) {
 	}
 	for rq, ch := range chs {
 		for _, v := range ch.L[0].L {
+			if v.Z == -8 {
+				return fmt.Sprintf("concurrent SendIQ calls under one id (requests %d..): in an unsteered round not exactly one of them was accepted", rq), "concurrent-clash"
+			}
+			if v.Z >= 200 {
+				return fmt.Sprintf("request %d (id %d) was handed an IQ that is neither a result nor an error (type missing or non-standard) as its response", rq, reqID[rq]), "non-response-delivered"
+			}
 			if v.Z >= 100 {
 				return fmt.Sprintf("request %d (id %d) was handed a get/set IQ (somebody's request with the same id) as its response", rq, reqID[rq]), "request-delivered"
 			}
@@ -591,8 +828,11 @@ func (c07) Oracle(inp interface{}, obs Sx) (string, string) {
 	for _, v := range obs.L[2].L {
 		gotOrd[int(v.Z)]++
 	}
-	for id := 0; id <= 200; id++ {
+	for id := 0; id <= 300; id++ {
 		if gotOrd[id] != wantOrd[id] {
+			if id >= 200 {
+				return fmt.Sprintf("IQs of missing/non-standard type with id %d: %d handed to the ordinary routes, expected %d", id-200, gotOrd[id], wantOrd[id]), "other-ordinary-count"
+			}
 			if id >= 100 {
 				return fmt.Sprintf("get requests with id %d: %d handed to the ordinary routes, expected %d", id-100, gotOrd[id], wantOrd[id]), "request-ordinary-count"
 			}
@@ -608,7 +848,13 @@ func (c07) Key(inp interface{}) (string, bool) {
 	fmt.Fprintf(&b, "c%v:", in.Component)
 	nreq, narr := 0, 0
 	for _, o := range in.Ops {
-		fmt.Fprintf(&b, "%s%d.%d.%d%v%v%v%v,", o.Op[:2], o.ID, o.Req, o.N, o.Fail, o.Early, o.Late, o.Get)
+		fmt.Fprintf(&b, "%s%d.%d.%d%v%v%v%v%s%v,", o.Op[:2], o.ID, o.Req, o.N, o.Fail, o.Early, o.Late, o.Get, o.Typ, o.Steer)
+		if o.Typ != "" {
+			hist("arrive:type=" + o.Typ)
+		}
+		if o.Steer {
+			hist("csend:steered")
+		}
 		hist("op:" + o.Op)
 		if o.Get {
 			hist("arrive:get-request")
